@@ -165,7 +165,9 @@ ObsNoAbandon == [][(TaskStep /\ Ev.e # "Exit") =>
 \* the piece is completed exactly when the last outstanding block arrives
 ObsComplete == [][TaskStep =>
    /\ (Ev.e = "Call" /\ Ev.cmd = "PieceDone") => (Accepted # 0 /\ h[K].rx.req = {Accepted} /\ td[K] = {})
-   /\ (Accepted # 0 /\ h[K].rx.req = {Accepted} /\ td[K] = {}) => ((Ev.e = "Call" /\ Ev.cmd = "PieceDone") \/ Ev.e = "Exit")]_ovars
+   /\ (Accepted # 0 /\ h[K].rx.req = {Accepted} /\ td[K] = {}) => ((Ev.e = "Call" /\ Ev.cmd = "PieceDone") \/ Ev.e = "Exit")
+   \* a task that ends on an accepted block (the assembly failed its hash, or could not be stored) did so on the last one
+   /\ (Ev.e = "Exit" /\ Accepted # 0) => (h[K].rx.req = {Accepted} /\ td[K] = {})]_ovars
 
 \* --- C11 ----------------------------------------------------------------------------------------------------
 \* the bitfield says exactly what was owned when the manager answered Init
@@ -175,6 +177,11 @@ ObsBitfield == [][(TaskStep /\ Frames("Bitfield") # <<>>) =>
 \* (at rest = at a disk scan, for a task that is not in the middle of a call to the manager)
 ObsAnnPrefix == \A k \in Peers : h[k].alive => IsPrefix(ann[k] \o h[k].buf, due[k])
 ObsAnnAtRest == [][At("Disk") => \A k \in Conn : h[k].alive /\ ~InFlight(k) => ann[k] \o h[k].buf = due[k]]_ovars
+
+\* --- C12: a reservation is backed by a peer that - as the connection task knows from the wire - does not choke us
+\* (the manager's own belief is what ReservedBacked reads; the two may only differ while something is in flight)
+ObsBackedOnWire == \A p \in Pieces : st[p].k = "R" =>
+                      \E k \in Conn : mp[k].pidx = p /\ (InFlight(k) \/ ~h[k].ch)
 
 \* --- C13: a piece handed out is a rarest candidate in the state it was picked in ----------------------------
 ObsPick == [][(At("Mgr") /\ Ev.reply \in {"SendRequest", "SendInterestedAndRequest"}) =>
@@ -199,5 +206,6 @@ ObsKeepAlive == [][TaskStep =>
                          \/ h[K].ka < KALimit /\ Ev.e = "End" /\ Frames("KeepAlive") # <<>> /\ Ev.hs.ka = h[K].ka + 1
    /\ (Tr.t = "KeepAlive" /\ Ev.e = "End") => Ev.hs.ka = h[K].ka
    /\ (Tr.t \in {"Choke", "Unchoke", "Interested", "NotInterested", "Have", "Bitfield", "Request", "Piece", "Cancel"}
-         /\ Ev.e \in {"Call", "End"} /\ h[K].hs) => Ev.hs.ka = 0]_ovars
+         /\ Ev.e \in {"Call", "End"} /\ h[K].hs) => Ev.hs.ka = 0
+   /\ (Tr.t = "Handshake" /\ Tr.good /\ Ev.e \in {"Call", "End"}) => Ev.hs.ka = 0]_ovars
 =============================================================================
